@@ -105,6 +105,10 @@ impl Report {
 
     /// write evidence + replays, print verdict lines, return the process exit code
     pub fn finish(mut self) -> i32 {
+        if crate::hist::replaying() {
+            // nothing is judged and no evidence is written while searching for a recorded history
+            return 2;
+        }
         let known = load_known(self.prop);
         // group violations by signature
         let mut by_sig: BTreeMap<String, Vec<Violation>> = BTreeMap::new();
